@@ -145,7 +145,12 @@ CLAIMED = {
         "stored; that whether the scanner yields a key depends only on the keys between it and the seek position (keys "
         "elsewhere in byte order cannot matter); that on SQL inserting a row with a fresh id and its tag rows changes the "
         "membership of no other row in any REQ's selection; and that the selection of a filter list is the union of the "
-        "selections. Search: paired runs with byte-order neighbours (ids/authors/kinds/tag values/timestamps), narrowed "
+        "selections. Props/C11Filter.lean lifts this to a REQ filter on LMDB over every history of writer tasks and whichever plan "
+        "the planner makes: C11_kv_filter_exact (the answer is exactly the stored matching events: C01 soundness + C02 "
+        "completeness), C11_kv_filter_unrelated_data (two histories whose stores hold the same matching events are answered "
+        "alike, whatever else was added, replaced or deleted), C11_kv_filter_narrowing (a narrower filter gets a subset), "
+        "C11_kv_filter_union (split values give the union) — for validated filters, when no stored event sits on a since/until "
+        "bound or matches through a delegator only, and the limit does not truncate. Search: paired runs with byte-order neighbours (ids/authors/kinds/tag values/timestamps), narrowed "
         "filters, split multi-value conditions, compared as id sets modulo events exactly on a since/until bound.",
         "Trusted: as C02. Events whose timestamp equals a since/until bound are not compared (the backends and indexes "
         "differ on bound inclusivity, which the properties leave open). Neighbour events use regular kinds only.",
@@ -199,7 +204,7 @@ CLAIMED = {
         "DESIGN.md §6 C17",
     ),
     "C04": (
-        "Lean 4 round-trip theorems for the hand-written frame serialiser (string escaping, tag arrays, EOSE and EVENT frames, for all code-point strings) + differential correspondence with util.event_as_json / the EOSE branch + storage/live/HTTP round-trip oracle with really signed events",
+        "Lean 4 round-trip theorems for the hand-written frame serialiser (string escaping, tag arrays, EOSE and EVENT frames, for all code-point strings) and for the LMDB record codec (msgpack pack / unpack, for all values) + differential correspondence with util.event_as_json / the EOSE branch + storage/live/HTTP round-trip oracle with really signed events",
         "Proof: NostrRelay/Props/C04.lean proves that for every string (any code points) the JSON string reader returns "
         "exactly the encoded string and the untouched rest; that every tag structure of strings is read back verbatim; and "
         "that for every subscription id, content and tags the EOSE and EVENT frames parse back field for field "
@@ -207,8 +212,15 @@ CLAIMED = {
         "code point by code point with the real one on random events drawn from every escape class; every emitted frame is "
         "also parsed with Python's json. Served = accepted is checked with really signed events through add_event, "
         "get_event, query, live push and HTTP /e/<id> on both backends, re-verifying id and signature. Two defects found "
-        "here were repaired (frames with raw sub ids / str()-formatted tag items; non-canonical hex pubkey/sig).",
-        "Trusted: rapidjson / json / msgpack / SQLite JSON codecs (exercised, not modelled); non-string tag items are "
+        "here were repaired (frames with raw sub ids / str()-formatted tag items; non-canonical hex pubkey/sig). "
+        "The LMDB record codec is inside the model (Model/MsgPack.lean: msgpack packb / unpackb as kv.encode_event / "
+        "decode_event use them; Props/C04Record.lean): MP.C04_unpackb_packb — unpackb(packb(v)) = v for every value packb "
+        "accepts (integers of every width, strings / byte strings / arrays / objects of every header size, floats, booleans, "
+        "null, any nesting), MP.C04_kv_record_roundtrip — the record read back has exactly the fields of the event written, "
+        "MP.C04_kv_record_refused_iff; tied byte for byte to the real packer and reader, and the record's field order is also "
+        "regenerated from kv.py's source by the translator (tie_encodeRow).",
+        "Trusted: rapidjson / json / SQLite JSON codecs (exercised, not modelled); msgpack nesting beyond 511 levels, ext types "
+        "and strict UTF-8 decoding of str payloads are not modelled; non-string tag items are "
         "outside the Lean frame model (oracle only); OK/NOTICE/AUTH frames come from rapidjson's encoder and are "
         "shape-checked in C13/C19.",
         "DESIGN.md §6 C04",
@@ -249,7 +261,13 @@ CLAIMED = {
         "clear-then-update refresh is shown to pass through the empty set (repaired defect). Tie: each real validator at "
         "bound-1/bound/bound+1 under an injected clock; the real pipeline through add_event on both backends (refused with "
         "a reason, nothing stored or broadcast); run_once with an instrumented set probing before/after every set method "
-        "and at every await of the query loop, its operation sequence replayed through the Lean `observable`.",
+        "and at every await of the query loop, its operation sequence replayed through the Lean `observable`. "
+        "Props/C16Nip05.lean covers the NIP-05 policy verification.is_nip05_verified (chained before is_pubkey_allowed): refuses "
+        "exactly kind-0 events that do not mention nip05 under `enabled` (C16_nip05_rejects_iff), never switches an unenforced "
+        "allow list on, never shrinks an enforced one, adds only the author of the metadata event at hand, who is then admitted "
+        "unless denied (the documented temporary admission of a candidate); tied to the real function (the optional nostr_bot "
+        "dependency is replaced by a name-only stand-in). Concurrent submissions claiming one id and configurations whose "
+        "validators cannot be resolved are part of the search.",
         "Partial: atomicity of a single set method under the GIL is trusted. The empty-query-result case (static whitelist "
         "dropped) was repaired by a fix: commit.",
         "DESIGN.md §6 C16",
@@ -409,6 +427,8 @@ def main():
         "checks": checks,
         "not_applicable": [{"property_id": pid, "reason": NOT_YET} for pid in ids if pid not in CLAIMED],
         "notes": "Every claimed property: theorem on a hand-written Lean model + correspondence check run on every invocation. "
+                 "Second tie for the LMDB layout (C01 C02 C04 C06-C12 C17): harness/lib/translate.py regenerates the key / record layout "
+                 "from kv.py's source on every run and Lean checks twelve tie theorems against the compiled model (DESIGN.md 3.5). "
                  "known_findings.json lists genuine defects of the pinned tree (printed as KNOWN-FINDING).",
     }
     json.dump(m, open(os.path.join(VERIF, "MANIFEST.json"), "w"), indent=1)
